@@ -140,7 +140,7 @@ fn binding<'a>(b: &'a str, var: &str) -> Option<&'a str> {
     None
 }
 
-fn split_top(s: &str, sep: char) -> Vec<String> {
+pub fn split_top(s: &str, sep: char) -> Vec<String> {
     let mut out = vec![];
     let mut depth = 0i32;
     let mut in_q = false;
